@@ -11,8 +11,10 @@ CONSTANTS
   Rev = TRUE
   MaxH = 6
   Crash = FALSE
+  DX = 5
+  Around = {}
 VIEW View
 CONSTRAINT Bound
-INVARIANTS C15a C15b TypeOK ModelAgrees
+INVARIANTS C15a C15b TypeOK ModelAgrees BuryLemma
 PROPERTIES Frame
 CHECK_DEADLOCK FALSE
